@@ -75,8 +75,8 @@ class FnCtx:
                 for a in node.get("args", []):
                     if a.get("k") == "closure":
                         others = [x for x in node.get("args", []) if x is not a and x.get("k") != "closure"]
-                        for p in a.get("params", []):
-                            for lid, pos in pat_positions(p):
+                        for pi, p in enumerate(a.get("params", [])):
+                            for lid, pos in pat_positions(p, "cp%d" % pi):
                                 self.pos.setdefault(lid, pos)
                             for name, lid in fb.pat_bindings(p):
                                 if src is not None:
